@@ -103,6 +103,19 @@ static std::string node_str(BaseNode* n) {
     case NodeType::kComment: s = "C"; break;
     case NodeType::kFunc: s = "FUNC " + u(n->as<FuncNode>()->label_id()) + " " + u(n->as<FuncNode>()->exit_node()->label_id()); break;
     case NodeType::kFuncRet: s = "FRET"; break;
+    case NodeType::kJump: case NodeType::kInvoke: {
+      InstNode* in = n->as<InstNode>();
+      s = std::string(n->type() == NodeType::kJump ? "J " : "INV ") + u(in->inst_id()) + " " + u(uint32_t(in->options())) + " " + u(in->extra_reg()._signature._bits) + " " +
+          u(in->extra_reg()._id) + " " + u(in->op_count()) + " " + u(in->op_capacity());
+      const Operand* ops = in->operands_data();
+      for (size_t i = 0; i < in->op_capacity(); i++)
+        s += " " + u(ops[i]._signature._bits) + " " + u(ops[i]._base_id) + " " + u(ops[i]._data[0]) + " " + u(ops[i]._data[1]);
+      if (n->type() == NodeType::kJump) {
+        JumpAnnotation* ja = static_cast<JumpNode*>(n)->annotation();
+        s += " ann=" + (ja ? u(ja->annotation_id()) : std::string("-1"));
+      }
+      break;
+    }
     case NodeType::kSentinel: s = "SN " + u(uint32_t(n->as<SentinelNode>()->sentinel_type())); break;
     case NodeType::kConstPool: {
       ConstPoolNode* cp = n->as<ConstPoolNode>();
